@@ -54,6 +54,31 @@ def drive(ctx, fmt, n_cases, precisions, hostile=True, fixture_precisions=(), ke
                 ctx.case_wit = None
             if os.path.exists(p):
                 os.remove(p)
+        if i % 4 == 1:
+            # ONE writer object used for several files (full file, scenario-only file, full file again): every file is
+            # judged by the same contracts
+            ctx.case_wit = {"case": i, "fmt": fmt, "route": "one-writer-several-files"}
+            try:
+                from commonroad.common.file_writer import CommonRoadFileWriter, OverwriteExistingFile
+                from commonroad.common.util import FileFormat
+                w = CommonRoadFileWriter(sc, pps, author=sc.author or "a", affiliation=sc.affiliation or "b",
+                                         source=sc.source or "c", tags=sc.tags, decimal_precision=ps[0],
+                                         file_format=FileFormat.XML if fmt == "xml" else FileFormat.PROTOBUF)
+                ctx.feature("one-writer-several-files")
+                import contextlib
+                import io as _io
+                for k_, meth in enumerate(("write_to_file", "write_scenario_to_file", "write_to_file")):
+                    pth = io.tmpfile(".%s" % ("xml" if fmt == "xml" else "pb"))
+                    ctx.evaluation()
+                    with contextlib.redirect_stdout(_io.StringIO()):
+                        getattr(w, meth)(pth, OverwriteExistingFile.ALWAYS)
+                    if os.path.exists(pth):
+                        os.remove(pth)
+            except Exception as e:  # noqa
+                ctx.violation("%s/write/raises-%s/one-writer-several-files" % (prop, type(e).__name__), repr(e)[:300],
+                              {"case": i})
+            finally:
+                ctx.case_wit = None
         from vf.oracle import structure as S
         snap = S.snap_scenario(sc, header=False)
         ctx.fingerprint([fmt, sorted(snap["lanelets"]), sorted((k, v["role"]) for k, v in snap["obstacles"].items()),
